@@ -339,3 +339,22 @@ def main(ctx):
                            "the enumerated range and families only, not for "
                            "all 2^64 integers")
     return rep
+
+
+def mixed_cases(ctx):
+    items = []
+    ns = [1229, 1231, 1229 * 1231, 1231 * 1231, 2047, 1373653, 561, 1105,
+          2 ** 61 - 1, 2 ** 64 - 59, 25326001, 104729, 104729 * 104723, 97, 4]
+    for n in ns:
+        items.append(("isprime", dict(n=n)))
+        if n < 10 ** 7:
+            items.append(("nextprime", dict(n=n)))
+            items.append(("nextprime", dict(n=n - 1)))
+        if n < 10 ** 11:         # reference factorises by trial division
+            items.append(("fact", dict(n=n)))
+    for n in (5, 4, 7, 6, 13, 12, 12, 13):     # descending / repeated starts
+        items.append(("nextprime", dict(n=n)))
+    for vals in ([4, 6], [6, 4], [12, 18, 27], [7], [1, 1, 1]):
+        for conv in ("args", "list", "tuple"):
+            items.append(("gcd", dict(vals=vals, conv=conv)))
+    return [items]
